@@ -1,1 +1,66 @@
-(* C13_Spec.v — in progress *)
+(* C13_Spec.v — what "well-formed" and "malformed" mean, written from the protocol texts
+   (RFC 7230 field syntax, the gRPC HTTP/2 and gRPC-Web status trailers, the Connect error
+   and end-of-stream JSON), not from the structure of wire_details.go. *)
+From V Require Import C13_Model.
+Open Scope N_scope.
+
+Definition is_byte (c : N) : Prop := c < 256.
+
+(* RFC 7230 3.2.6 token characters; field-content bytes (VCHAR / SP / HTAB / obs-text) *)
+Definition tchar (c : N) : Prop :=
+  In c (bs "!#$%&'*+-.^_`|~0123456789abcdefghijklmnopqrstuvwxyzABCDEFGHIJKLMNOPQRSTUVWXYZ").
+Definition vchar (c : N) : Prop := c = 9 \/ (32 <= c /\ c <> 127).
+
+(* gRPC: Percent-Byte-Unencoded = 0x20-0x24 / 0x26-0x7E *)
+Definition unencoded (c : N) : Prop := (32 <= c /\ c <= 36) \/ (38 <= c /\ c <= 126).
+
+(* response metadata a server may add to the status trailers: token names other than the three
+   status trailers, field-content values *)
+Definition status_names : list bytes :=
+  [bs "grpc-status"; bs "grpc-message"; bs "grpc-status-details-bin"].
+Definition wf_trailer (h : header) : Prop :=
+  Forall tchar (fst h) /\ ~ In (lower (fst h)) status_names /\ Forall (Forall vchar) (snd h).
+Definition wf_meta (hs : list header) : Prop := Forall wf_trailer hs.
+
+(* the protobuf library: what was marshalled is what is unmarshalled, and it is bytes *)
+Definition proto_roundtrip (marshal : Z -> bytes -> list (bytes * bytes) -> option bytes)
+                           (unmarshal : bytes -> ustatus) : Prop :=
+  forall c m ds d, marshal c m ds = Some d -> unmarshal d = UOk c m (length ds) /\ Forall is_byte d.
+
+(* ---------- Connect JSON ---------- *)
+(* no object anywhere in the tree has two members with the same key, and every number converts *)
+Inductive clean_json : json -> Prop :=
+| cj_null : clean_json JNull
+| cj_bool b : clean_json (JBool b)
+| cj_num : clean_json (JNum true)
+| cj_str s : clean_json (JStr s)
+| cj_arr l : Forall clean_json l -> clean_json (JArr l)
+| cj_obj ms : NoDup (map fst ms) -> Forall (fun kv => clean_json (snd kv)) ms -> clean_json (JObj ms).
+
+(* an error detail: {"type": full name, "value": unpadded base64, "debug"?: anything} *)
+Definition wf_detail (t : json) : Prop :=
+  exists ms, t = JObj ms /\ clean_json t /\
+    (forall k v, In (k, v) ms ->
+       (k = bs "type" /\ exists s, v = JStr s /\ fullname_valid s = true) \/
+       (k = bs "value" /\ exists s d, v = JStr s /\ b64_decode_raw s = Some d) \/
+       k = bs "debug") /\
+    In (bs "type") (map fst ms) /\ In (bs "value") (map fst ms).
+
+(* a Connect error: {"code": one of the 16 names, "message"?: string, "details"?: [detail]} *)
+Definition wf_connect_error (t : json) : Prop :=
+  exists ms, t = JObj ms /\ clean_json t /\
+    (forall k v, In (k, v) ms ->
+       (k = bs "code" /\ exists s, v = JStr s /\ In s C13_Consts.c13_code_names) \/
+       (k = bs "message" /\ exists s, v = JStr s) \/
+       (k = bs "details" /\ exists l, v = JArr l /\ Forall wf_detail l)) /\
+    In (bs "code") (map fst ms).
+
+(* an end-of-stream message: {"error"?: Connect error, "metadata"?: {name: [value]}} *)
+Definition wf_metadata_entry (kv : bytes * json) : Prop :=
+  valid_field_name (fst kv) = true /\
+  exists l, snd kv = JArr l /\ Forall (fun v => exists s, v = JStr s /\ valid_field_value s = true) l.
+Definition wf_end_stream (t : json) : Prop :=
+  exists ms, t = JObj ms /\ clean_json t /\
+    (forall k v, In (k, v) ms ->
+       (k = bs "error" /\ wf_connect_error v) \/
+       (k = bs "metadata" /\ exists es, v = JObj es /\ Forall wf_metadata_entry es)).
